@@ -5,6 +5,7 @@ import (
 	"fmt"
 	"sort"
 	"strings"
+	"sync"
 	"time"
 
 	"verif/internal/simrt"
@@ -151,9 +152,14 @@ func progCands(p PProg) []PProg {
 			out = append(out, q)
 		}
 	}
-	if p.Cfg.U != 0 || p.Cfg.Size != 0 || p.Cfg.Pretty {
+	if p.Cfg.U != 0 || p.Cfg.Size != 0 || p.Cfg.Pretty || p.Cfg.ShareOpts {
 		q := cp()
-		q.Cfg.U, q.Cfg.Size, q.Cfg.Pretty = 0, 0, false
+		q.Cfg.U, q.Cfg.Size, q.Cfg.Pretty, q.Cfg.ShareOpts = 0, 0, false, false
+		out = append(out, q)
+	}
+	if p.Cfg.ShareOpts {
+		q := cp()
+		q.Cfg.ShareOpts = false
 		out = append(out, q)
 	}
 	for i, st := range p.Steps {
@@ -523,10 +529,44 @@ func samplesOf(cs []PCase) []any {
 // sequentially, on both the woven and the unwoven runner and requires equal
 // outcomes; returns the number of cases compared.
 func (rig *parsimRig) validateWeaving(mode string, seed uint64) (int, error) {
-	if rig.raceRunner == "" {
+	if rig.plainRunner == "" {
 		return 0, nil
 	}
-	return 0, nil
+	const n = 3000
+	chunks := rig.env.Jobs
+	per := (n + chunks - 1) / chunks
+	validated := 0
+	var mu sync.Mutex
+	err := ParallelDo(chunks, rig.env.Jobs, func(i int) error {
+		from, to := i*per, (i+1)*per
+		a, err := rig.runJob(&PJob{Mode: mode, Seed: seed, From: from, To: to, RefSigs: true}, false, 20*time.Minute)
+		if err != nil {
+			if _, ok := err.(workerCrash); ok {
+				return nil // the sweep will isolate and report the crashing case
+			}
+			return err
+		}
+		b, err := rig.runJob(&PJob{Mode: mode, Seed: seed, From: from, To: to, RefSigs: true, Plain: true}, false, 20*time.Minute)
+		if err != nil {
+			if wc, ok := err.(workerCrash); ok {
+				return infra("the unwoven runner crashed in sequential mode: %s", clipStr(wc.msg, 1500))
+			}
+			return err
+		}
+		if len(a.RefSigs) != len(b.RefSigs) {
+			return infra("weaving validation: %d vs %d results", len(a.RefSigs), len(b.RefSigs))
+		}
+		for k := range a.RefSigs {
+			if a.RefSigs[k] != b.RefSigs[k] {
+				return infra("weaving changes behaviour: case %d of mode %s observes differently in the woven and the unwoven build", from+k, mode)
+			}
+		}
+		mu.Lock()
+		validated += len(a.RefSigs)
+		mu.Unlock()
+		return nil
+	})
+	return validated, err
 }
 
 // ReplayParsim re-executes a parsim replay file against /repo's current tree.
